@@ -64,9 +64,19 @@ def mk_dag(names, edges, latents=()):
         # the public way of declaring latent nodes one by one, on the class most users build; a latent declared on one graph
         # object must never show up in another one (the workers build thousands of graphs in one process)
         g = BayesianNetwork()
-        for x in node_order:
-            g.add_node(gen.lab(x), latent=gen.lab(x) in lat)
-        g.add_edges_from([(gen.lab(names[u]), gen.lab(names[v])) for u, v in edges])
+        if prng.random() < .5:
+            for x in node_order:
+                g.add_node(gen.lab(x), latent=gen.lab(x) in lat)
+            g.add_edges_from([(gen.lab(names[u]), gen.lab(names[v])) for u, v in edges])
+        else:
+            # structure first, the latent flags afterwards (add_node / add_nodes_from on nodes that already exist)
+            g.add_nodes_from([gen.lab(x) for x in node_order])
+            g.add_edges_from([(gen.lab(names[u]), gen.lab(names[v])) for u, v in edges])
+            if lat and prng.random() < .5:
+                g.add_nodes_from(lat, latent=[True] * len(lat))
+            else:
+                for x in lat:
+                    g.add_node(x, latent=True)
         return g
     g = DAG()
     g.add_nodes_from([gen.lab(x) for x in node_order])
@@ -321,6 +331,28 @@ def run_indep(case, drv):
                 return fail(f"local_independencies({names[v]}): {li}")
         elif li:
             return fail(f"local_independencies({names[v]}) should be empty: {li}")
+    # the same question for SEVERAL variables in one call (list or tuple, any order): one statement per variable, each the same as
+    # when asked alone
+    if n >= 2:
+        import random
+        prng = random.Random(n * 97 + len(edges))
+        vs = list(range(n))
+        prng.shuffle(vs)
+        vs = vs[:prng.randint(2, n)]
+        arg = [names[v] for v in vs] if prng.random() < .5 else tuple(names[v] for v in vs)
+        try:
+            got = {(frozenset(a.event1), frozenset(a.event2), frozenset(a.event3)) for a in g.local_independencies(arg).get_assertions()}
+        except Exception as ex:
+            return fail(f"local_independencies({arg!r}) raised {type(ex).__name__}: {ex}")
+        want = set()
+        for v in vs:
+            desc = set(drv.call("g_descendants", g=mg, zs=[v]))
+            par = {u for u, w in edges if w == v}
+            nd = set(range(n)) - desc - par
+            if nd:
+                want.add((frozenset({names[v]}), frozenset(names[u] for u in nd), frozenset(names[u] for u in par)))
+        if got != want:
+            return fail(f"local_independencies({arg!r}) = {sorted(map(str, got))}, one local Markov statement per variable gives {sorted(map(str, want))}")
     return ok(nontrivial=len(edges) > 0, n=n)
 
 
